@@ -223,5 +223,12 @@ pub fn matcher_cases(prop: &str, ctx: &Ctx, cfg: &GenCfg, n: u64) -> Vec<(String
         let l = if i % 40 == 13 { ledger::gen_long(&mut r, cfg) } else if i % 16 == 7 && cfg.splits { ledger::gen_consolidation(&mut r, cfg) } else if i % 3 == 2 { ledger::gen_contention(&mut r, cfg) } else { ledger::gen_ledger(&mut r, cfg) };
         cases.push((format!("gen#{i}"), l));
     }
+    // shapes added later draw from their own stream, so the cases above stay what they were
+    if cfg.max_tickers >= 2 {
+        let mut rx = Rng::new(ctx.seed ^ 0x5ec0_0d5e_c0de);
+        for i in 0..(n / 12).max(4) {
+            cases.push((format!("cross#{i}"), ledger::gen_cross_contention(&mut rx, cfg)));
+        }
+    }
     cases
 }
